@@ -117,7 +117,7 @@ def gen_cases(ctx, deep=False):
         if k not in seen:
             seen.add(k); cases.append(c)
     for k, prog in enumerate(SC_PROGS):
-        for m in (0, 1) + ((2,) if big or k in (0, 1, 7, 10) else ()):
+        for m in (0, 1) + ((2,) if big or k in ((0, 10) if ctx.seed % 2 == 0 else (1, 7)) else ()):
             for ops in insertions(prog, SC_ACTS, m):
                 if valid_scalar(ops): put({'kind': 'scalar', 'db0': SC_DB0, 'ops': ops})
     # to-one reference (I[1].owner) changing under the reader: the value is the identity of the referenced row
@@ -128,7 +128,7 @@ def gen_cases(ctx, deep=False):
                     put({'kind': 'ref', 'db0': db0, 'ops': ops})
     put({'kind': 'proj'})
     for k, prog in enumerate(O2M_PROGS):
-        for m in (0, 1) + ((2,) if big or k in (0, 1) else ()) + ((3,) if huge and len(prog) <= 3 else ()):
+        for m in (0, 1) + ((2,) if big or k == ctx.seed % 2 else ()) + ((3,) if huge and len(prog) <= 3 else ()):
             for ops in insertions(prog, O2M_ACTS, m):
                 put({'kind': 'coll', 'm2m': False, 'ops': ops})
     # the same reader programs on a one-to-many whose back-reference is a member of a secondary unique key (composite_key(owner, number))
@@ -140,7 +140,7 @@ def gen_cases(ctx, deep=False):
             for ops in insertions(prog, PK_ACTS, m):
                 put({'kind': 'coll', 'm2m': False, 'ref': 'pk', 'ops': ops})
     for k, prog in enumerate(M2M_PROGS):
-        for m in (0, 1) + ((2,) if big or k in (0, 3) else ()) + ((3,) if huge else ()):
+        for m in (0, 1) + ((2,) if big or k == (0, 3)[ctx.seed % 2] else ()) + ((3,) if huge else ()):
             for ops in insertions(prog, M2M_ACTS + ([['link', 1], ['link', 2], ['unlink', 3]] if m >= 2 else []), m):
                 if valid_coll(ops): put({'kind': 'coll', 'm2m': True, 'ops': ops})
     return cases
